@@ -557,9 +557,11 @@ class StateManager:
         instance = cls(n_dim)
 
         if "_current" in state_dict:
-            instance._current.update(state_dict["_current"])
+            for key, value in state_dict["_current"].items():
+                instance._current[key] = instance._ensure_copy(value)
         if "_history" in state_dict:
-            instance._history.update(state_dict["_history"])
+            for key, values in state_dict["_history"].items():
+                instance._history[key] = [instance._ensure_copy(a) for a in values]
 
         instance._invalidate_cache()
         return instance
@@ -587,9 +589,11 @@ class StateManager:
         0.5
         """
         if "_current" in state_dict:
-            self._current.update(state_dict["_current"])
+            for key, value in state_dict["_current"].items():
+                self._current[key] = self._ensure_copy(value)
         if "_history" in state_dict:
-            self._history.update(state_dict["_history"])
+            for key, values in state_dict["_history"].items():
+                self._history[key] = [self._ensure_copy(a) for a in values]
         if "n_dim" in state_dict:
             self.n_dim = state_dict["n_dim"]
 
